@@ -47,6 +47,16 @@ CHECKS = {
         "Trusted: CPython ints; day<->date bijection (C01) for rendering the expected date.",
         "DESIGN.md §2 C10",
     ),
+    "C11": (
+        "exploration",
+        "Hypothesis property-based testing against an int model (instant, offset seconds, calendar id)",
+        "Generated (instant, offset, calendar, second offset/calendar, duration, zone) tuples incl. double day carries "
+        "and values within 18 h of the range ends: construction, with_offset, with_calendar, adjusters, +/- Duration, "
+        "plus_<unit>, differences, projections/recombination, fixed-zone and zoned forms compared with int arithmetic; "
+        "raise iff the Instant range or the calendar's day range is left.",
+        "Trusted: CPython ints; zone.get_utc_offset (decided by C04-C06); day<->date bijection (C01).",
+        "DESIGN.md §2 C11",
+    ),
 }
 
 NOT_YET = {}
